@@ -45,6 +45,9 @@ func (v *V1) Project(j jd1.JsonNode) codec.Node {
 	if j == nil {
 		return codec.Node{K: "x", V: "?nil"}
 	}
+	if TooDeep(j) {
+		panic("jd (v1) produced a cyclic (or absurdly deep) document")
+	}
 	txt := j.Json()
 	n, err := v.T.FromText(txt)
 	if err != nil {
